@@ -1,9 +1,20 @@
-//! temporary probe
-use quil_rs::verif_hooks;
+//! C05 — numeric literals are parsed to their exact value or rejected.
+use qvh::lexwire::{all_strings, lex_case};
+use qvh::*;
+
+const A1: [char; 10] = ['0', '1', '9', '_', '.', 'e', 'E', '+', '-', ' '];
+const A2: [char; 14] = ['0', '1', '7', '8', 'x', 'X', 'b', 'o', '_', '.', 'a', 'f', 'g', 'i'];
+
 fn main() {
-    let args: Vec<String> = std::env::args().collect();
-    for a in &args[1..] {
-        let a = a.replace("\\n", "\n").replace("\\t", "\t").replace("\\r", "\r");
-        println!("{:?} => {:?}", a, verif_hooks::lex_tokens(&a));
+    main_with(run)
+}
+
+fn run(ctx: &mut Ctx) {
+    let (l1, l2) = if ctx.quick() { (4, 3) } else { (6, 5) };
+    for len in 0..=l1 {
+        all_strings(&A1, len, &mut |s| lex_case(ctx, s));
+    }
+    for len in 1..=l2 {
+        all_strings(&A2, len, &mut |s| lex_case(ctx, s));
     }
 }
